@@ -53,19 +53,28 @@ func (x *xtr) afterLoop(t ast.Node, kind, call string, state []string, rest func
 }
 
 func (x *xtr) polyBinder() string {
-	var ps []string
-	if x.poly {
-		ps = append(ps, "α")
+	return x.typeBinders(x.poly, x.tparams, x.inhabitedBinders())
+}
+
+// [Inhabited T] binders for the opaque type parameters: when a struct of the spec has type parameters
+// (its zero value and `Inhabited` instance need them) or a zero value of such a type was written
+func (x *xtr) inhabitedBinders() bool {
+	if x.inhabited {
+		return true
 	}
-	ps = append(ps, x.tparams...)
-	if len(ps) == 0 {
-		return ""
+	for _, st := range x.structs {
+		if len(st.tparams) > 0 {
+			return true
+		}
 	}
-	return "{" + strings.Join(ps, " ") + " : Type} "
+	return false
 }
 
 // `for ; i < n; i++` whose body assigns neither i nor a variable of n: the fuel is known
 func (x *xtr) countingFuel(s *ast.ForStmt) (string, bool) {
+	if f, ok := x.countdownFuel(s); ok {
+		return f, true
+	}
 	be, ok := s.Cond.(*ast.BinaryExpr)
 	if !ok || be.Op != token.LSS {
 		return "", false
@@ -99,6 +108,38 @@ func (x *xtr) countingFuel(s *ast.ForStmt) (string, bool) {
 		}
 	}
 	return fmt.Sprintf("(Go.countFuel %s %s)", ident(iv.Name), paren(x.intExpr(be.Y))), true
+}
+
+// `for ; i > 0 [&& c ..]; i--` whose body does not assign i: the condition is evaluated at most i + 1 times
+func (x *xtr) countdownFuel(s *ast.ForStmt) (string, bool) {
+	cond := s.Cond
+	for {
+		be, ok := cond.(*ast.BinaryExpr)
+		if !ok {
+			return "", false
+		}
+		if be.Op == token.LAND {
+			cond = be.X
+			continue
+		}
+		iv, ok := be.X.(*ast.Ident)
+		if !ok || be.Op != token.GTR || x.env[iv.Name] == nil || x.env[iv.Name].k != kInt {
+			return "", false
+		}
+		if lit, ok := be.Y.(*ast.BasicLit); !ok || lit.Value != "0" {
+			return "", false
+		}
+		post, ok := s.Post.(*ast.IncDecStmt)
+		if !ok || post.Tok != token.DEC || !isIdent(post.X, iv.Name) {
+			return "", false
+		}
+		inBody := map[string]bool{}
+		x.assigned(s.Body.List, map[string]bool{}, inBody)
+		if inBody[iv.Name] {
+			return "", false
+		}
+		return fmt.Sprintf("(Go.countFuel 0 %s)", ident(iv.Name)), true
+	}
 }
 
 func (x *xtr) forStmt(s *ast.ForStmt, rest func() string) string {
@@ -549,14 +590,52 @@ func translateExt(fset *token.FileSet, load fileLoader, sp spec, known map[strin
 	}
 	x := &xtr{fset: fset, sp: sp, env: map[string]*xty{}, structs: map[string]*xstruct{}, consts: map[string]xval{},
 		shared: map[string]bool{}, loops: map[ast.Stmt]*loopInfo{}, ptrParams: map[string]bool{}, params: map[string]bool{}, prims: map[string]bool{},
-		aliases: map[string]*xty{}, known: known, uses: map[string]useSpec{}, opaque: map[string]string{}}
+		aliases: map[string]*xty{}, known: known, uses: map[string]useSpec{}, opaque: map[string]string{},
+		ordParams: map[string]bool{}, methods: map[string]*xmethod{}}
 	for _, o := range sp.Opaque {
 		nt := strings.SplitN(o, "=", 2)
 		if len(nt) != 2 {
 			fail(token.Position{Filename: sp.File}, "spec.Opaque entry %q", o)
 		}
 		x.opaque[nt[0]] = nt[1]
-		x.tparams = append(x.tparams, nt[1])
+		seen := false
+		for _, p := range x.tparams {
+			seen = seen || p == nt[1]
+		}
+		if !seen { // (two spellings of one Go type may name the same parameter)
+			x.tparams = append(x.tparams, nt[1])
+		}
+	}
+	if sp.FloatAbs != "" {
+		x.tparams = append(x.tparams, sp.FloatAbs)
+		x.ordParams[sp.FloatAbs] = true
+	}
+	// abstract methods of opaque types: "T.M=func(..) R" (does not change the value), "T.M=mut func(..) R"
+	var methodNames []string
+	for _, ms := range sp.Methods {
+		nt := strings.SplitN(ms, "=", 2)
+		tm := strings.SplitN(nt[0], ".", 2)
+		if len(nt) != 2 || len(tm) != 2 {
+			fail(token.Position{Filename: sp.File}, "spec.Methods entry %q", ms)
+		}
+		sig, mut := strings.TrimPrefix(nt[1], "mut "), strings.HasPrefix(nt[1], "mut ")
+		te, err := parser.ParseExpr(sig)
+		if err != nil {
+			fail(token.Position{Filename: sp.File}, "spec.Methods entry %q: %v", ms, err)
+		}
+		ft := x.goTy(te)
+		if ft.k != kFunc || len(ft.results) != 1 || ft.results[0].k == kErr {
+			fail(token.Position{Filename: sp.File}, "spec.Methods entry %q: not a function type with one result", ms)
+		}
+		m := &xmethod{lean: tm[0] + "_" + tm[1], ft: ft, mut: mut, recv: tm[0]}
+		x.methods[nt[0]] = m
+		recvTy := &xty{k: kOpaque, name: tm[0]}
+		pt := &xty{k: kFunc, params: append([]*xty{recvTy}, ft.params...), results: ft.results}
+		if mut {
+			pt.results = []*xty{ft.results[0], recvTy}
+		}
+		x.env[m.lean] = pt
+		methodNames = append(methodNames, m.lean)
 	}
 	for _, u := range sp.Uses {
 		x.uses[u.Go] = u
@@ -580,7 +659,11 @@ func translateExt(fset *token.FileSet, load fileLoader, sp spec, known map[strin
 			x.aliases[ss.Name] = x.goTy(te)
 			continue
 		}
-		xs := &xstruct{name: ss.Name}
+		xs := &xstruct{name: ss.Name, caps: map[string]bool{}}
+		for _, c := range ss.Caps {
+			xs.caps[c] = true
+		}
+		tv := map[string]bool{}
 		only := map[string]bool{}
 		for _, o := range ss.Only {
 			only[o] = true
@@ -594,6 +677,18 @@ func translateExt(fset *token.FileSet, load fileLoader, sp spec, known map[strin
 				ft := x.goTy(fl.Type)
 				xs.fields = append(xs.fields, xfield{n.Name, ft})
 				xs.poly = xs.poly || ft.mentionsAny()
+				ft.tvars(tv)
+				if xs.caps[n.Name] {
+					if ft.k != kList {
+						fail(token.Position{Filename: ss.File}, "structSpec.Caps: %s.%s is not a slice", ss.Name, n.Name)
+					}
+					xs.fields = append(xs.fields, xfield{n.Name + "_cap", tInt})
+				}
+			}
+		}
+		for _, p := range x.tparams {
+			if tv[p] {
+				xs.tparams = append(xs.tparams, p)
 			}
 		}
 		if len(ss.Only) > 0 && len(only) > 0 {
@@ -632,7 +727,15 @@ func translateExt(fset *token.FileSet, load fileLoader, sp spec, known map[strin
 		oracle[o] = true
 	}
 	var primBinders []string
+	for _, mn := range methodNames {
+		primBinders = append(primBinders, fmt.Sprintf("(%s : %s)", mn, x.env[mn].lean()))
+	}
 	for _, p := range sp.Prims {
+		if p == "growCap" { // the capacity `append` chooses when it has to grow: (old capacity, new length) ↦ new capacity
+			x.env["growCap"] = &xty{k: kFunc, params: []*xty{tInt, tInt}, results: []*xty{tInt}}
+			primBinders = append(primBinders, "(growCap : Int → Int → Int)")
+			continue
+		}
 		if lt, ok := primTypes[p]; ok { // polymorphic library function, used by name
 			x.prims[p] = true
 			x.poly = x.poly || strings.Contains(lt, "Go.Any α")
@@ -752,6 +855,10 @@ func translateExt(fset *token.FileSet, load fileLoader, sp spec, known map[strin
 		}
 		x.rho = l + " × " + x.env[ex].lean()
 	}
+	if len(x.results) == 0 && len(x.extras) > 0 {
+		// no results: the returned value is the state alone (also inside the loop definitions)
+		x.rho = strings.TrimPrefix(x.rho, "Unit × ")
+	}
 	x.hasExit = scanCtl(fd.Body.List).fuelLoop
 	if x.hasExit {
 		x.ctx = xctx{mode: mOut}
@@ -766,19 +873,12 @@ func translateExt(fset *token.FileSet, load fileLoader, sp spec, known map[strin
 		for i, ex := range x.extras {
 			if i == 0 {
 				v = ident(ex)
-				if len(x.results) != 0 {
-					v = "((), " + v + ")"
-				}
 			} else {
 				v = "(" + v + ", " + ident(ex) + ")"
 			}
 		}
 		return x.ctx.ret(v)
 	})
-	if len(x.results) == 0 && len(x.extras) > 0 {
-		// no results: the returned value is the state alone
-		x.rho = strings.TrimPrefix(x.rho, "Unit × ")
-	}
 	body = joinLines(strings.Join(inits, "\n"), body)
 	rty := x.rho
 	if x.hasExit {
